@@ -62,6 +62,12 @@ def gen_model(rng, modname, profile="orm"):
             if kind in OPT_DEFAULTS and rng.random() < 0.5:
                 fd["dflt"] = True       # an Optional field whose default is not None
             fields.append(fd)
+        if parent is not None and profile in ("orm", "rt", "big") and rng.random() < 0.2:
+            # an intermediate base class that is NOT handed to ORMatic (cf. NotMappedParent in the repository's dataset)
+            un = f"U{i}"
+            ufields = [{"name": f"u{i}_0", "kind": rng.choice(["int", "str", "opt_float"]), "target": None}] if rng.random() < 0.6 else []
+            classes.append({"name": un, "parent": parent, "fields": ufields, "unmapped": True})
+            parent = un
         classes.append({"name": nm, "parent": parent, "fields": fields})
     order = list(names)
     rng.shuffle(order)
@@ -140,6 +146,8 @@ def render(spec):
 
     for nm in spec["order"]:
         emit(nm)
+    for c in spec["classes"]:
+        emit(c["name"])
     spec["emitted"] = emitted
     return "\n".join(lines)
 
@@ -149,6 +157,9 @@ def shape_signature(spec):
     depth = {}
     by = {c["name"]: c for c in spec["classes"]}
     for c in spec["classes"]:
+        if c.get("unmapped"):
+            sig.append("unmapped")
+            continue
         d, cur = 0, c
         while cur["parent"]:
             d += 1
